@@ -148,6 +148,16 @@ def irregular_cases(rng, tier):
         pts = [(ox + (1 + 0.3 * math.sin(3 * a)) * math.cos(a), oy + (1 + 0.3 * math.sin(3 * a)) * math.sin(a))
                for a in [2 * math.pi * (i + 0.37) / m for i in range(m)]]
         cases.append(dict(kind=f'far-from-origin {ox:g}', center=(ox, oy), pts=pts, vals=[math.cos(2.0 * i) for i in range(m)], property_only=True))
+    # prescribed values of small magnitude (perturbation amplitudes, concentrations) and domains that are large in coordinate units
+    # (metres over a few km): the spline weights are tiny absolute numbers that still carry the whole interpolant
+    m = 9
+    ring = [((1 + 0.3 * math.sin(3 * a)) * math.cos(a), (1 + 0.3 * math.sin(3 * a)) * math.sin(a)) for a in [2 * math.pi * (i + 0.37) / m for i in range(m)]]
+    for amp in (1.0e-7, 3.0e-9, 1.0e-12):
+        cases.append(dict(kind=f'prescribed values of magnitude {amp:g}', center=(0.05, -0.03), pts=ring, vals=[amp * (math.cos(2.0 * i) + 0.3) for i in range(m)],
+                          property_only=True, relative=True))
+    for size in (2.0e3, 4.0e4):
+        cases.append(dict(kind=f'domain of size {size:g} in coordinate units', center=(0.05 * size, -0.03 * size), pts=[(size * x, size * y) for x, y in ring],
+                          vals=[math.cos(2.0 * i) + 0.3 for i in range(m)], property_only=True, relative=True))
     # closed curves sampled with the closing point included: the last control point is a round-off copy of the first one (documented
     # to be dropped), sitting on the 0 / 2 pi seam of the angular order
     for n_, rx, ry in ((36, 1.0, 1.0), (20, 1.5, 0.8)):
@@ -220,7 +230,11 @@ def extra_phase(rep, tier, seed):
         ctx = dict(kind=case['kind'], center=case['center'], control_points=case['pts'], values=case['vals'])
         # the property itself: prescribed value at EVERY control point that was passed in, for any network
         torch.manual_seed(rng.randrange(1 << 30))
-        for net in (FCNN(2, 1, hidden_units=(6,)), (lambda xy: 50.0 + 10 * xy[:, :1] * xy[:, 1:2])):
+        nets_ = (FCNN(2, 1, hidden_units=(6,)), (lambda xy: 50.0 + 10 * xy[:, :1] * xy[:, 1:2]))
+        if case.get('relative'):      # errors are measured against the size of the data: networks whose output is of that size (and zero)
+            vs_ = max(abs(v) for v in case['vals'])
+            nets_ = ((lambda xy: xy[:, :1] * 0), (lambda xy, k=vs_: k * torch.tanh(xy[:, :1] * 1e-3 + xy[:, 1:2] * 2e-3) + k))
+        for net in nets_:
             xs = torch.tensor([[p[0]] for p in case['pts']], requires_grad=True)
             ys = torch.tensor([[p[1]] for p in case['pts']], requires_grad=True)
             try:
@@ -230,12 +244,33 @@ def extra_phase(rep, tier, seed):
                 break
             # rounding of L_D (exactly 0 at the control points over the reals) is amplified by the size of the raw network output
             nmag = float(net(torch.cat([xs, ys], 1)).detach().abs().max())
-            err = max(abs(g - v) / (1 + abs(v) + 1e-2 * nmag) for g, v in zip(got, case['vals']))
+            unit = max(abs(v) for v in case['vals']) if case.get('relative') else 1
+            err = max(abs(g - v) / (unit + abs(v) + 1e-2 * nmag) for g, v in zip(got, case['vals']))
             stats['max_control_error'] = max(stats['max_control_error'], err)
             if not err <= 1e-6:
                 failing.append(dict(ctx, violated='enforced function differs from the prescribed value at a Dirichlet control point',
                                     got=got, surviving_control_points=len(cleaned)))
                 break
+        # preallocated coordinate buffers without autograd (chunked evaluation, plotting) that are refilled in place between calls:
+        # each call is about the coordinates the buffers hold THEN
+        if len(case['pts']) >= 4 and not case.get('relative'):
+            try:
+                half = len(case['pts']) // 2
+                bx, by = torch.zeros(half, 1), torch.zeros(half, 1)
+                net0 = lambda xy: xy[:, :1] * 0 + 1.0
+                worst = 0.0
+                for chunk in (0, 1, 0):
+                    sel = list(range(chunk * half, chunk * half + half))
+                    bx.copy_(torch.tensor([[case['pts'][i][0]] for i in sel]))
+                    by.copy_(torch.tensor([[case['pts'][i][1]] for i in sel]))
+                    got = cond.enforce(net0, bx, by).detach().reshape(-1).tolist()
+                    worst = max(worst, max(abs(g - case['vals'][i]) / (1 + abs(case['vals'][i]) + 1e-2) for g, i in zip(got, sel)))
+                stats['refilled_buffer_cases'] = stats.get('refilled_buffer_cases', 0) + 1
+                if not worst <= 1e-6:
+                    failing.append(dict(ctx, violated='coordinate buffers (no autograd) refilled in place between calls: the enforced function at the '
+                                        'control points now in the buffers is not their prescribed value', relative_error=worst))
+            except Exception as e:
+                failing.append(dict(ctx, violated='enforce on plain (no autograd) coordinate buffers raised', error=f'{type(e).__name__}: {e}'))
         if case.get('property_only'):
             continue        # the property was evaluated above; the exact correspondence is run on the small, well-scaled systems
         if len(captured) != 3:
@@ -414,6 +449,38 @@ def runtime_checks():
                                     violated='does not select the last output unit'))
             except Exception as e:
                 bad.append(dict(case='output unit -1 on a shared network', condition=name, outputs=n_out, error=f'{type(e).__name__}: {e}'))
+    # double-precision coordinates and network in a session whose default precision is single (the usual GPU set-up, checked in double):
+    # the edges are reproduced to DOUBLE rounding, on boxes whose bounds are not single-precision numbers
+    import math
+    prev = torch.get_default_dtype()
+    try:
+        for default in (torch.float32, torch.float64):
+            torch.set_default_dtype(default)
+            for dt in (torch.float64, torch.float32):
+                eps = torch.finfo(dt).eps
+                x0, x1, y0, y1 = 0.1, math.pi, -0.3, 1.7
+                g0, g1 = (lambda x: torch.sin(3 * x) + 0.2 * x), (lambda x: torch.exp(0.5 * x))
+                # compatible corner data: f0(y), f1(y) interpolate the corner values of g0, g1 linearly in y and add a bubble
+                c = lambda g, xv: float(g(torch.tensor(xv, dtype=torch.float64)))
+                mkf = lambda xv: (lambda y: c(g0, xv) + (c(g1, xv) - c(g0, xv)) * (y - y0) / (y1 - y0) + (y - y0) * (y1 - y) * torch.cos(y))
+                cond = DirichletBVP2D(x0, mkf(x0), x1, mkf(x1), y0, g0, y1, g1)
+                net = FCNN(2, 1, hidden_units=(5,)).to(dt)
+                s_ = torch.linspace(0.0, 1.0, 7, dtype=dt).reshape(-1, 1)
+                xs_, ys_ = x0 + (x1 - x0) * s_, y0 + (y1 - y0) * s_
+                for edge, xx, yy, want in (('y = y0', xs_, torch.full_like(xs_, y0), g0(xs_)), ('y = y1', xs_, torch.full_like(xs_, y1), g1(xs_)),
+                                           ('x = x0', torch.full_like(ys_, x0), ys_, mkf(x0)(ys_)), ('x = x1', torch.full_like(ys_, x1), ys_, mkf(x1)(ys_))):
+                    try:
+                        got = cond.enforce(net, xx.clone().requires_grad_(), yy.clone().requires_grad_()).detach()
+                        err = float((got.double() - want.double()).abs().max())
+                        if got.dtype != dt or not err <= 400 * eps:
+                            bad.append(dict(case='precision of the coordinates differs from the session default', default_dtype=str(default), coordinates=str(dt),
+                                            edge=edge, box=[x0, x1, y0, y1], max_abs_error=err, result_dtype=str(got.dtype),
+                                            violated='edge function not reproduced to the rounding of the coordinates\' precision'))
+                    except Exception as e:
+                        bad.append(dict(case='precision of the coordinates differs from the session default', default_dtype=str(default), coordinates=str(dt),
+                                        edge=edge, error=f'{type(e).__name__}: {e}'))
+    finally:
+        torch.set_default_dtype(prev)
     return bad
 
 
